@@ -57,10 +57,14 @@ type infoCase struct {
 	kind     gtab.Type
 	info     *gtab.Info
 	overflow []string // sites exceeded on purpose (refusal is legitimate)
-	sites    []string // all special sites present
-	classes  []string
-	desc     []string
-	emitted  int // size of the encoding (set by checkInfo)
+	// mayRefuse: the case lies between the sizes known to fit and known to
+	// overflow - the encoder may refuse it loudly or encode it; what it
+	// encodes must be consistent
+	mayRefuse bool
+	sites     []string // all special sites present
+	classes   []string
+	desc      []string
+	emitted   int // size of the encoding (set by checkInfo)
 }
 
 func (c *infoCase) String() string {
@@ -337,7 +341,7 @@ func checkInfo(c *infoCase) (*verdict, *failure) {
 	v := &verdict{}
 	var data []byte
 	if pn := guard.Try(func() { data = c.info.Encode() }); pn != nil {
-		if len(c.overflow) > 0 {
+		if len(c.overflow) > 0 || c.mayRefuse {
 			v.refused = true
 			v.labels = append(v.labels, "refused-loudly")
 			return v, nil
@@ -468,6 +472,15 @@ func TestC08Info(t *testing.T) {
 		known := settle(t, c, f)
 		labels := append([]string{}, c.classes...)
 		labels = append(labels, v.labels...)
+		if f == nil && !v.refused && v.size < 200000 {
+			// the same objects with other content: encode again
+			if editInPlace(c.info) > 0 {
+				c.desc = append(c.desc, "second encoding after an in-place edit of values (no length changed)")
+				_, f2 := checkInfo(c)
+				settle(t, c, f2)
+				labels = append(labels, "re-encoded-after-in-place-edit")
+			}
+		}
 		labels = append(labels, "kind:"+c.kind.String())
 		if known {
 			labels = append(labels, "known-finding")
